@@ -52,8 +52,8 @@ CHECKS = {
         ref="2 C09", note="valid: asym<=1e-13*s and lambda_min>=-1e-13*s; invalid: >1e-8*s; between = grey (undecided); histories bounded in length and magnitude"),
     "C10": dict(
         technique="offline trace checker over recorded dt sequences of a recording stand-in filter driven by the real Python runtime and of recording Impl types compiled against ManagedFilter.h (ASan/UBSan)",
-        text="For each move the recorded dt list must point in the direction of travel, respect max_dt, sum to the time difference within 1e-9 and be empty for equal times; both runtimes, many max_dt values, boundary deltas.",
-        ref="2 C10", note="|delta|/max_dt <= 2000; times of moderate magnitude; C++ built with g++/clang against ManagedFilter.h"),
+        text="For each move the recorded dt list must point in the direction of travel, respect max_dt, sum to the time difference within 1e-9 (independent of the number of steps) and be empty for equal times; both runtimes, many max_dt values, boundary deltas, remainders of nanoseconds at |t| up to 1e6 s, coasts beyond 2^20 steps.",
+        ref="2 C10", note="single moves up to 2.6e6 steps (run-length-encoded logs); |t| <= 1e6 (ulp < 1e-9); C++ built with g++/clang against ManagedFilter.h"),
     "C11": dict(
         technique="trace monitor: append-only log filter under the real runtimes vs executable reference model of tick; real-EKF state threading; Python/C++ call-sequence comparison",
         text="Returned logs of random tick histories must equal the reference fold (move, update, hold at reading; report at output, not held); call sequences of the Python and C++ runtimes must coincide.",
